@@ -415,15 +415,16 @@ class Connection(ExportImport):
         # the savepoint, then they won't have _p_oid or _p_jar after
         # they've been unadded. This will make the code in _abort
         # confused.
-        self._abort()
-
         if self._savepoint_storage is not None:
+            self._abort(self._savepoint_storage.creating)
             self._abort_savepoint()
+        else:
+            self._abort()
 
         self._invalidate_creating()
         self._tpc_cleanup()
 
-    def _abort(self):
+    def _abort(self, disowning=()):
         """Abort a transaction and forget all changes."""
 
         for obj in self._registered_objects:
@@ -437,6 +438,11 @@ class Connection(ExportImport):
                 del obj._p_oid
                 if obj._p_changed:
                     obj._p_changed = False
+            elif oid in self._creating or oid in disowning:
+                # A new object that the caller is about to disown (see
+                # _invalidate_creating).  It has no committed state to
+                # return to: invalidating it would destroy its state.
+                pass
             else:
                 # Note: If we invalidate a non-ghostifiable object
                 # (i.e. a persistent class), the object will
@@ -673,7 +679,8 @@ class Connection(ExportImport):
         # by another thread, so the risk of a reread is pretty low.
         # It's really not worth the effort to pursue this.
 
-        self._cache.invalidate(self._modified)
+        self._cache.invalidate([oid for oid in self._modified
+                                if oid not in self._creating])
         self._invalidate_creating()
         while self._added:
             oid, obj = self._added.popitem()
@@ -1022,13 +1029,13 @@ class Connection(ExportImport):
         return result
 
     def _rollback_savepoint(self, state):
-        self._abort()
-        self._registered_objects = []
         src = self._storage
+        created = [oid for oid in src.creating if oid not in state[2]]
+        self._abort(created)
+        self._registered_objects = []
 
         # Invalidate objects created *after* the savepoint.
-        self._invalidate_creating(oid for oid in src.creating
-                                  if oid not in state[2])
+        self._invalidate_creating(created)
         index = src.index
         src.reset(*state)
         self._cache.invalidate(index)
